@@ -327,6 +327,9 @@ def r5(ctx, fs):
         ctx.finding(rid, f.id, 'route', 'arith_item::value_to_json must print the value and bounds of the item\'s own expression from the theory its type belongs to', loc=f.loc)
 
 
+RESTS_ON = ['C07', 'C09', 'C10', 'C11', 'C12', 'C13', 'C14', 'C15', 'C16', 'C17']
+
+
 def run(ctx):
     quick = {'P': ctx.facts('P'), 'F': ctx.facts('F')}
     cfgs = dict(quick)
@@ -346,3 +349,7 @@ def run(ctx):
     ctx.rule('C01.R6', 'core::new_enum(type, lits, vals), int / real / tp arms: min = least lower bound and max = greatest upper bound of the candidate values (dual updates from +inf / -inf), '
                        'the derived variable is a constant only when min == max and is bounded by x >= min, x <= max - so that a constraint on `r.f` constrains the field of the object chosen for r', floor=3)
     new_enum_hull(ctx, fs, 'C01.R6')
+    # the end-to-end property rests on the structural clauses of the SAT core, the theories and the language front end: a reported solution can only satisfy what was asserted if every literal, bound and expression means what it says
+    for dep in RESTS_ON:
+        ctx.include(dep)
+    ctx.note('rule packs of the properties this one rests on were evaluated as part of this check: ' + ', '.join(RESTS_ON))
